@@ -89,6 +89,19 @@ def judge(case):
     lg.addHandler(counter)
     old_level = lg.level
     lg.setLevel(logging.DEBUG)
+    # the application's logging configuration is part of the environment: it may silence the
+    # library's logger, which must not silence the USER's error handler
+    logcfg = case.get("logcfg")
+    libs = [logging.getLogger(n) for n in ("pyrtcm", "pyrtcm.rtcmreader")]
+    old_libs = [l.level for l in libs]
+    if logcfg == "lib-critical":
+        libs[0].setLevel(logging.CRITICAL)
+    elif logcfg == "reader-off":
+        libs[1].setLevel(logging.CRITICAL + 10)
+    elif logcfg == "disabled":
+        logging.disable(logging.CRITICAL)
+    elif logcfg == "root-critical":
+        lg.setLevel(logging.CRITICAL)
     try:
         rdr = RTCMReader(io.BytesIO(b"".join(sent)), quitonerror=q,
                          errorhandler=(herrs if use_handler == "falsy" else herrs.append)
@@ -110,7 +123,11 @@ def judge(case):
     finally:
         lg.removeHandler(counter)
         lg.setLevel(old_level)
-    name = f"k={len(frames)} damaged={sorted(damage)} q={q} handler={use_handler}"
+        logging.disable(logging.NOTSET)
+        for l, lv in zip(libs, old_libs):
+            l.setLevel(lv)
+    name = f"k={len(frames)} damaged={sorted(damage)} q={q} handler={use_handler}" + (
+        f" logging={logcfg}" if logcfg else "")
     got = [e[1] for e in events if e[0] == "frame"]
     if q in (0, 1):
         if any(e[0] in ("parse-error", "other") for e in events):
@@ -125,6 +142,8 @@ def judge(case):
         want = len(damage) if q == 1 else 0
         if use_handler and q == 1 and any(not isinstance(e, RTCMParseError) for e in herrs):
             out.bad("handler-gets-wrong-error", f"{name}: handler got {[type(e).__name__ for e in herrs]}")
+        if logcfg and not use_handler:
+            nrep = want  # records are legitimately dropped by the application's configuration
         if nrep != want:
             out.bad("error-report-count" + (":ignore-mode" if q == 0 else ""),
                     f"{name}: {nrep} error reports via {'handler' if use_handler else 'logger'}, "
@@ -185,6 +204,18 @@ def cases(tier):
                     for q, h in modes:
                         out.append({"frames": frames, "damage": dict(zip(sub, combo)),
                                     "q": q, "handler": h})
+    # logging configurations of the host application x every single-bit damage x modes (handler)
+    for k in (2, 3):
+        frames = base_frames(k)
+        for i in range(k):
+            nb = (len(frames[i]) - 3) * 8
+            for kind, mask in patterns(nb):
+                if kind != "bit":
+                    continue
+                for logcfg in ("lib-critical", "reader-off", "disabled", "root-critical"):
+                    for q, h in ((0, True), (1, True), (2, True), (1, "falsy"), (1, False)):
+                        out.append({"frames": frames, "damage": {i: mask}, "q": q, "handler": h,
+                                    "logcfg": logcfg})
     # rebroadcast (byte-identical) frames: a damaged copy of a frame the same reader has already
     # delivered must still be rejected (static messages such as 1005/1033 repeat verbatim)
     a, b = base_frames(2)
